@@ -242,7 +242,7 @@ class Exec:
             k = ('wf', v.t.get_id(), st.alloc.get_id())
             if k not in st.facts_seen and not z3.is_int_value(v.t):
                 st.facts_seen.add(k)
-                st.assume(z3.And(v.t >= 1, v.t < st.alloc))
+                st.fact(z3.And(v.t >= 1, v.t < st.alloc))
         elif isinstance(v, VTuple):
             for i in v.items:
                 self.wf(st, i)
@@ -250,18 +250,18 @@ class Exec:
             k = ('wfb', v.len.get_id())
             if k not in st.facts_seen and not z3.is_int_value(v.len):
                 st.facts_seen.add(k)
-                st.assume(v.len >= 0)
+                st.fact(v.len >= 0)
         elif isinstance(v, VSeq):
             k = ('wfs', v.len.get_id())
             if k not in st.facts_seen and not z3.is_int_value(v.len):
                 st.facts_seen.add(k)
-                st.assume(v.len >= 0)
+                st.fact(v.len >= 0)
         elif isinstance(v, VOpt):
             inner = v.some()
             if isinstance(inner, (VRef, VDict, VList)):
-                st.assume(z3.Or(v.is_none(), z3.And(inner.t >= 1, inner.t < st.alloc)))
+                st.fact(z3.Or(v.is_none(), z3.And(inner.t >= 1, inner.t < st.alloc)))
             elif isinstance(inner, VBytes):
-                st.assume(z3.Or(v.is_none(), inner.len >= 0))
+                st.fact(z3.Or(v.is_none(), inner.len >= 0))
         return v
 
     def field_type(self, node, v, attr):
@@ -314,7 +314,7 @@ class Exec:
         k = ('card', c.get_id())
         if k not in st.facts_seen:
             st.facts_seen.add(k)
-            st.assume(c >= 0)
+            st.fact(c >= 0)
         return c
 
     def dict_has(self, st, d, k):
@@ -324,7 +324,7 @@ class Exec:
 
     def dict_has_fact(self, st, d, has):
         """a present key implies positive cardinality"""
-        st.assume(z3.Implies(has, self.dict_card(st, d) > 0))
+        st.fact(z3.Implies(has, self.dict_card(st, d) > 0))
 
     def dict_get(self, st, d, k):
         k = coerce(k, d.k)
@@ -378,7 +378,7 @@ class Exec:
         k = ('ll', n.get_id())
         if k not in st.facts_seen and not z3.is_int_value(n):
             st.facts_seen.add(k)
-            st.assume(n >= 0)
+            st.fact(n >= 0)
         return n
 
     def list_at(self, st, l, i):
@@ -426,7 +426,7 @@ class Exec:
         if ty[0] == 'bytes':
             n = z3.Int(fresh_name(base + '.len'))
             a = z3.Array(fresh_name(base + '.arr'), I, I)
-            st.assume(n >= 0)
+            st.fact(n >= 0)
             v = VBytes(n, lambda i, a=a: z3.Select(a, i))
             return v
         if ty[0] == 'tuple':
@@ -446,4 +446,4 @@ class Exec:
         k = ('byte', t.get_id())
         if k not in st.facts_seen:
             st.facts_seen.add(k)
-            st.assume(z3.And(t >= 0, t <= 255))
+            st.fact(z3.And(t >= 0, t <= 255))
